@@ -37,7 +37,8 @@ class ExportConfigBash(ExportConfig):
         else:
             shape = [len(values)]+shape
         if len(coord)==0 and len(shape)==1:
-            return "(" + " ".join(f"\"{val}\"" for val in strings) + ")", shape
+            # strings are already quoted by _parse_scalar
+            return "(" + " ".join(val if isinstance(val,str) and val.startswith("\"") else f"\"{val}\"" for val in strings) + ")", shape
         else:
             return "\n".join(str(val) for val in strings), shape
     
